@@ -225,20 +225,23 @@ def wallAt (Z : Zone) (r : Int) : Int := r + Z.offReal r
 structure WFlags where
   /-- `time_next_adj` (new subsystem before fix 0421163) instead of `time_next` (legacy; new subsystem now) -/
   recheckAdj : Bool
+  /-- how far (µs) before the instant the re-check lets the function run: legacy `actual_now < time_next` → 0,
+      new `if timeout <= 1e-6: break` → 1 -/
+  slack : Int
 deriving DecidableEq, Repr
 
 /-- `trigger_watch` as it is -/
-def WFlags.legacy : WFlags := ⟨false⟩
+def WFlags.legacy : WFlags := ⟨false, 0⟩
 /-- `TimeTriggerDecorator._cycle` as it is (since fix 0421163) -/
-def WFlags.new : WFlags := ⟨false⟩
+def WFlags.new : WFlags := ⟨false, 1⟩
 /-- `TimeTriggerDecorator._cycle` before fix 0421163 -/
-def WFlags.newPreFix : WFlags := ⟨true⟩
+def WFlags.newPreFix : WFlags := ⟨true, 1⟩
 
 /-- the re-check loop after the first sleep: real time at which the function is run -/
 def waitFire (W : WFlags) (Z : Zone) (next adj : Int) : Nat → Int → Int
   | 0, r => r
   | n + 1, r =>
-    if wallAt Z r < (if W.recheckAdj then adj else next) then
+    if wallAt Z r + W.slack < (if W.recheckAdj then adj else next) then
       waitFire W Z next adj n (r + ((if W.recheckAdj then adj else next) - wallAt Z r))
     else r
 
